@@ -103,6 +103,24 @@ func (e *Enc) script() string {
 			}
 		}
 	}
+	if e.keepDefs && e.usedUF["sprintf"] {
+		// replay only: Sprintf("%d", n) is the decimal rendering of n, stated for the numerals that occur as literals
+		pd := e.reg.strLit("%d").S
+		for i := 0; i < len(e.reg.strList); i++ {
+			lit := e.reg.strList[i]
+			n, err := strconv.ParseInt(lit, 10, 64)
+			if err != nil || strconv.FormatInt(n, 10) != lit {
+				continue
+			}
+			for _, bx := range sortedKeys(e.boxDecls) {
+				if e.boxDecls[bx] != sInt {
+					continue
+				}
+				fmt.Fprintf(&b, "(assert (forall ((a! (Array Int Int))) (! (=> (= (select a! 0) (%s %s)) (= (uf_sprintf %s a! 1) %s)) :pattern ((uf_sprintf %s a! 1)))))\n",
+					bx, tInt(n).S, pd, e.reg.strLit(lit).S, pd)
+			}
+		}
+	}
 	if e.usedUF["runes"] {
 		for i := 0; i < len(e.reg.strList); i++ {
 			fmt.Fprintf(&b, "(assert (= (uf_runes %s) %d))\n", e.reg.strLit(e.reg.strList[i]).S, len([]rune(e.reg.strList[i])))
